@@ -116,6 +116,11 @@ impl Hooks for SchedHooks {
             sched().released(t, lock, mode);
         }
     }
+    fn before_atomic(&self, _addr: usize, store: bool) {
+        if let Some(t) = TID.with(|c| c.get()) {
+            sched().point(t, Op::Yield(if store { "atomic-store" } else { "atomic-load" }));
+        }
+    }
 }
 
 impl IoSched for SchedHooks {
@@ -302,6 +307,11 @@ impl State {
 
 impl Sched {
     pub fn point(&self, t: usize, op: Op) {
+        if std::thread::panicking() {
+            // a lock taken by a destructor while this thread is already unwinding (the execution
+            // is being torn down): do not raise a second panic, just let it run
+            return;
+        }
         let mut st = self.state.lock().unwrap();
         if !st.active {
             return;
